@@ -108,11 +108,11 @@ theorem hashWF_ex : HashWF H0 [recA] := by
     subst hr
     decide
 
-/-- the verdict: NODATA for `a.z. TXT` is `Secure` for the repaired and for the current code -/
+/-- the verdict: NODATA for `a.z. TXT` is `Secure` for the fully repaired and for the current code -/
 theorem secure_ex :
     verifyNsec3 allFixed H0 encShift (mk [[97], [122]]) 16 (some (mk [[122]])) rcNoError none
       [recA] 100 500 = .secure ∧
-    verifyNsec3 asIs H0 encShift (mk [[97], [122]]) 16 (some (mk [[122]])) rcNoError none
+    verifyNsec3 current H0 encShift (mk [[97], [122]]) 16 (some (mk [[122]])) rcNoError none
       [recA] 100 500 = .secure := by decide
 
 /-- … and the soundness theorem applies: `a.z.` has no TXT, no CNAME and is not a delegation. -/
@@ -145,9 +145,10 @@ theorem hasCEProof_ex : HasCEProof H0 encShift (mk [[122]]) [apexPair] [] [97] [
     subst hp
     decide
 
-example : validateNxdomain asIs H0 encShift (mk [[97], [122]]) (some (mk [[122]])) [apexPair]
+example : validateNxdomain current H0 encShift (mk [[97], [122]]) (some (mk [[122]])) [apexPair]
     = .secure :=
   nxdomain_complete encOrd_shift hashWF_ex.hash hasCEProof_ex (hasCover_ex _ (by decide))
-    ⟨mk [[42], [122]], by decide⟩ (.inl rfl) (.inl rfl)
+    ⟨mk [[42], [122]], by decide⟩
+    (.inr (by intro p hp; simp only [List.mem_singleton] at hp; subst hp; decide)) (.inl rfl)
 
 end HickoryVerif.C09
